@@ -383,10 +383,18 @@ _tg, _te = _thr.make(T_CALLS, ['geodepy/transform.py', 'geodepy/constants.py'], 
                      files_thorough=['geodepy/angles.py'])
 
 
+from gpmc import callforms as _cf
+
+
+from gpmc import interp as _ip
+
+
 SUBCHECKS = [
     Sub('formula', gen_formula, ev_formula, chunk=4, floor=1000, guard=True, envs=3),
     Sub('covariance', gen_cov, ev_cov, chunk=2, floor=200, guard=True, envs=2),
     Sub('threads', _tg, _te, chunk=1, floor=3, poison=False, fresh=True, timeout=3600),
+    Sub('callforms', *_cf.make('C06', 'transform'), chunk=1, floor=1, guard=True),
+    Sub('interpreter', *_ip.make('C06', 'transform'), chunk=1, floor=5, poison=False),
 ]
 
 
